@@ -14,6 +14,8 @@
 //!        "dir": 1 | -1, "dim": n, "resp": "unit" | [[hex64,..],..], "atol": [hex64,..] (1 entry = scalar),
 //!        "rtol": hex64, "thetas": [hex64,..], "beta0": bool, "max_step": hex64 (lowlevel, adaptive methods), "first_step": hex64 (solve_ivp only)}
 //! beta0 = true (error-weight probe) pins the step-size controller parameters (safety factor 0.9, clamps, beta 0) through the builders.
+//! "span": |xend| (default 1; 1.3 with max_step = 1 gives a second, shortened landing step), "dense": false builds the low-level
+//! solver with dense_output(false), "xis": absolute evaluation points for Solution::sol.
 //! All floats cross the boundary as 16-hex-digit tokens of their bits (the *_f fields are informational).
 use ivp::dense::StepInterpolant;
 use ivp::ivp::IVP;
@@ -83,7 +85,8 @@ impl SolOut for Recorder {
     fn solout(&mut self, xold: f64, x: &mut f64, y: &mut [f64], interpolant: Option<&StepInterpolant<'_>>) -> ControlFlag {
         let mut dense = Vec::new();
         if let Some(ip) = interpolant {
-            let (xo, h) = ip.step_params();
+            // evaluation points are placed on the ACTUAL step [xold, x] handed to the callback, not on the interpolant's own (xold, h)
+            let (xo, h) = (xold, *x - xold);
             for th in &self.thetas {
                 let xi = xo + th * h;
                 let mut yi = vec![0.0; self.dim];
@@ -91,8 +94,10 @@ impl SolOut for Recorder {
                 dense.push(json!({"theta": tok(*th), "theta_f": fj(*th), "xi": tok(xi), "y": toks(&yi), "y_f": fjs(&yi)}));
             }
         }
+        let sp = interpolant.map(|ip| ip.step_params());
         self.events.push(json!({"xold": tok(xold), "x": tok(*x), "x_f": fj(*x), "y": toks(y), "y_f": fjs(y),
-                                "has_interp": interpolant.is_some(), "dense": dense}));
+                                "has_interp": interpolant.is_some(), "dense": dense,
+                                "interp_xold": sp.map(|p| tok(p.0)), "interp_h": sp.map(|p| tok(p.1))}));
         ControlFlag::Continue
     }
 }
@@ -127,19 +132,22 @@ fn run_job(job: &Value) -> Value {
     let probe = Probe { dim, resp, calls: RefCell::new(Vec::new()) };
     let y0 = vec![0.0; dim];
     let x0 = 0.0;
-    let xend = dir * 1.0;
+    let span: f64 = job["span"].as_str().map(untok).unwrap_or(1.0);
+    let xend = dir * span;
+    let dense_on = job["dense"].as_bool().unwrap_or(true);
+    let xis: Vec<f64> = job["xis"].as_array().map(|a| a.iter().map(|t| untok(t.as_str().unwrap())).collect()).unwrap_or_default();
     let mut out = json!({"id": id, "api": api, "method": method, "dir": dir as i64, "dim": dim});
 
     if api == "lowlevel" {
         let mut rec = Recorder { thetas: thetas.clone(), dim, events: Vec::new(), ncalls_at: Vec::new() };
         let r = catch(|| match method.as_str() {
-            "RK4" => RK4::builder().build().solve(&probe, x0, &y0, xend, dir * 1.0, Some(&mut rec)),
+            "RK4" => RK4::builder().dense_output(dense_on).build().solve(&probe, x0, &y0, xend, dir * 1.0, Some(&mut rec)),
             "RK23" => {
                 let s = if beta0 {
                     // error-weight probe: pin the controller parameters so that the crate's defaults do not matter
                     RK23::builder().first_step(1.0).maybe_max_step(max_step).safety_factor(0.9).scale_min(0.2).scale_max(10.0).build()
                 } else {
-                    RK23::builder().first_step(1.0).maybe_max_step(max_step).build()
+                    RK23::builder().first_step(1.0).maybe_max_step(max_step).dense_output(dense_on).build()
                 };
                 s.solve(&probe, x0, &y0, xend, Tolerance::Scalar(rtol), tol_of(&atol), Some(&mut rec))
             }
@@ -147,7 +155,7 @@ fn run_job(job: &Value) -> Value {
                 let s = if beta0 {
                     DOPRI5::builder().first_step(1.0).maybe_max_step(max_step).beta(0.0).safety_factor(0.9).scale_min(0.2).scale_max(10.0).build()
                 } else {
-                    DOPRI5::builder().first_step(1.0).maybe_max_step(max_step).build()
+                    DOPRI5::builder().first_step(1.0).maybe_max_step(max_step).dense_output(dense_on).build()
                 };
                 s.solve(&probe, x0, &y0, xend, Tolerance::Scalar(rtol), tol_of(&atol), Some(&mut rec))
             }
@@ -155,7 +163,7 @@ fn run_job(job: &Value) -> Value {
                 let s = if beta0 {
                     DOP853::builder().first_step(1.0).maybe_max_step(max_step).beta(0.0).safety_factor(0.9).scale_min(0.333).scale_max(6.0).build()
                 } else {
-                    DOP853::builder().first_step(1.0).maybe_max_step(max_step).build()
+                    DOP853::builder().first_step(1.0).maybe_max_step(max_step).dense_output(dense_on).build()
                 };
                 s.solve(&probe, x0, &y0, xend, Tolerance::Scalar(rtol), tol_of(&atol), Some(&mut rec))
             }
@@ -189,6 +197,7 @@ fn run_job(job: &Value) -> Value {
                 .rtol(Tolerance::Scalar(rtol))
                 .atol(tol_of(&atol))
                 .first_step(fs)
+                .maybe_max_step(max_step)
                 .dense_output(true)
                 .build();
             solve_ivp(&probe, x0, xend, &y0, opts)
@@ -202,8 +211,10 @@ fn run_job(job: &Value) -> Value {
             }
             Ok(Ok(sol)) => {
                 let mut dense = Vec::new();
-                for th in &thetas {
-                    let xi = x0 + th * (dir * 1.0);
+                let mut pts: Vec<(f64, f64)> = thetas.iter().map(|th| (*th, x0 + th * (dir * 1.0))).collect();
+                pts.extend(xis.iter().map(|xi| (f64::NAN, *xi)));      // absolute evaluation points (landing-step probe)
+                for (th, xi) in &pts {
+                    let xi = *xi;
                     match catch(|| sol.sol(xi)) {
                         Ok(Ok(yi)) => dense.push(json!({"theta": tok(*th), "theta_f": fj(*th), "xi": tok(xi), "y": toks(&yi), "y_f": fjs(&yi)})),
                         Ok(Err(e)) => dense.push(json!({"theta": tok(*th), "xi": tok(xi), "error": format!("{:?}", e)})),
